@@ -394,7 +394,7 @@ func (e *Engine) prelude() string {
 	}
 	// imul: product of two symbolic integers (kept uninterpreted; only these facts are used)
 	sb.WriteString("(declare-fun imul (Int Int) Int)\n")
-	sb.WriteString("(assert (forall ((a Int) (b Int)) (! (and (= (imul a b) (imul b a)) (=> (or (= a 0) (= b 0)) (= (imul a b) 0)) (=> (= a 1) (= (imul a b) b)) (=> (and (>= a 0) (>= b 0)) (>= (imul a b) 0)) (=> (and (>= a 1) (>= b 0)) (>= (imul a b) b)) (=> (and (>= a 0) (>= b 1)) (>= (imul a b) a)) (=> (and (<= 0 a) (< a 1099511627776) (<= 0 b) (< b 1048576)) (< (imul a b) 1152921504606846976))) :pattern ((imul a b)))))\n")
+	sb.WriteString("(assert (forall ((a Int) (b Int)) (! (and (= (imul a b) (imul b a)) (=> (or (= a 0) (= b 0)) (= (imul a b) 0)) (=> (= a 1) (= (imul a b) b)) (=> (and (>= a 0) (>= b 0)) (>= (imul a b) 0)) (=> (and (>= a 1) (>= b 0)) (>= (imul a b) b)) (=> (and (>= a 0) (>= b 1)) (>= (imul a b) a)) (=> (and (>= a 0) (>= b 2)) (>= (imul a b) (+ a a))) (=> (and (<= 0 a) (< a 1099511627776) (<= 0 b) (< b 1048576)) (< (imul a b) 1152921504606846976))) :pattern ((imul a b)))))\n")
 	sb.WriteString("(assert (forall ((a Int) (b Int)) (! (= (imul (+ a 1) b) (+ (imul a b) b)) :pattern ((imul (+ a 1) b)))))\n")
 	sb.WriteString("(assert (forall ((a Int) (b Int)) (! (= (imul (- a 1) b) (- (imul a b) b)) :pattern ((imul (- a 1) b)))))\n")
 	// sdiv/smod: Go quotient and remainder for a symbolic divisor (non-negative dividend, positive divisor)
